@@ -1267,10 +1267,13 @@ async fn run_openresponses_agent_loop(
 
         let (payload, request_kind) = if let Some(tool_outputs) = followup_tool_outputs.take() {
             if stateless_history {
-                (
-                    build_streaming_followup_request(config, None, history_items.clone()),
-                    "followup_stateless_history",
-                )
+                let payload = build_streaming_followup_request(config, None, history_items.clone());
+                // The follow-up user message is part of what the provider saw: keep it in the
+                // history so that every later request extends this one.
+                if let Some(message) = config.followup_user_message.as_deref() {
+                    history_items.push(ItemParam::user_message_text(message));
+                }
+                (payload, "followup_stateless_history")
             } else {
                 let Some(prev) = previous_response_id.as_deref() else {
                     return OpenResponsesLoopOutcome {
